@@ -18,7 +18,8 @@ RULE = ("random complex 2x2 / 4x4 matrices for the frame identities; tomography:
         "non-trivial = a preparation or intervention outside the probe set; distinct by seed")
 TRUSTED = ["dense evolution + partial trace (harness)", "modelled, not verified: numpy pinv, the sequence bookkeeping, the weighted "
            "aggregation, exactness of the simulated segments (C05)"]
-ASSUMES = ["noise-free dynamics; environment starts in all-zeros"]
+ASSUMES = ["noise-free dynamics; environment starts in all-zeros",
+           "a segment duration t is represented by round(t/dt) time steps: the exact reference evolves for round(t/dt)*dt"]
 
 
 def correspond(ctx):
@@ -78,7 +79,8 @@ def tomo_oracle(args):
     L, segs, solver = args["L"], args["segments"], args["solver"]
     J, g = float(rng.uniform(0.5, 1.2)), float(rng.uniform(0.3, 1.0))
     H, hd = MPO.ising(L, J, g), dense.ising(L, J, g)
-    par = AnalogSimParams(observables=[], elapsed_time=segs[0], dt=0.05, solver=solver, show_progress=False, threshold=1e-13,
+    dt = args.get("dt", 0.05)
+    par = AnalogSimParams(observables=[], elapsed_time=segs[0], dt=dt, solver=solver, show_progress=False, threshold=1e-13,
                           max_bond_dim=16, get_state=True)
     with common.time_limit(900):
         pt = tomography.run(H, par, timesteps=list(segs), num_trajectories=1)
@@ -95,7 +97,9 @@ def tomo_oracle(args):
     env[0] = 1.0
     rho = np.kron(rho_prep, np.outer(env, env.conj()))
     for s, t in enumerate(segs):
-        u = dense.evolve(hd, np.eye(2**L, dtype=complex), t)
+        # the simulators live on the time grid: a duration is represented by round(t/dt) steps (C15); durations that are
+        # nominal multiples of dt (0.15 = 3 * 0.05 although 0.15/0.05 = 2.9999999999999996) must get exactly that many
+        u = dense.evolve(hd, np.eye(2**L, dtype=complex), round(t / dt) * dt)
         rho = u @ rho @ u.conj().T
         if s < len(maps):
             rho = sum(np.kron(k, np.eye(2 ** (L - 1))) @ rho @ np.kron(k, np.eye(2 ** (L - 1))).conj().T for k in maps[s])
@@ -109,9 +113,11 @@ def tomo_oracle(args):
 
 def search(ctx):
     plan = [dict(seed=1, L=2, segments=[0.2], solver="TJM"), dict(seed=2, L=3, segments=[0.15], solver="TJM"),
-            dict(seed=3, L=2, segments=[0.1], solver="MCWF"), dict(seed=4, L=2, segments=[0.1, 0.15], solver="TJM")]
+            dict(seed=3, L=2, segments=[0.1], solver="MCWF"), dict(seed=4, L=2, segments=[0.1, 0.15], solver="TJM"),
+            dict(seed=5, L=2, segments=[0.3], solver="MCWF", dt=0.1)]
     if not ctx.quick:
-        plan += [dict(seed=int(ctx.rng.integers(0, 2**31)), L=int(ctx.rng.integers(2, 4)), segments=[0.1, 0.1] if k % 3 == 0 else [float(ctx.rng.uniform(0.05, 0.3))],
+        plan += [dict(seed=int(ctx.rng.integers(0, 2**31)), L=int(ctx.rng.integers(2, 4)), segments=[0.1, 0.1] if k % 3 == 0 else [round(int(ctx.rng.integers(1, 7)) * 0.05, 2)] if k % 3 == 1
+                      else [float(ctx.rng.uniform(0.05, 0.3))],
                       solver=str(ctx.rng.choice(["TJM", "MCWF"]))) for k in range(10)]
     for a in plan:
         try:
